@@ -314,8 +314,25 @@ def x_clrex(M, o):
     M.excl = None
 
 
+DSB_OPTION = {0b0010: ('OUTER_SHAREABLE', 'WRITES'), 0b0011: ('OUTER_SHAREABLE', 'ALL'), 0b0110: ('NONSHAREABLE', 'WRITES'), 0b0111: ('NONSHAREABLE', 'ALL'),
+              0b1010: ('INNER_SHAREABLE', 'WRITES'), 0b1011: ('INNER_SHAREABLE', 'ALL'), 0b1110: ('FULL_SYSTEM', 'WRITES')}
+
+
 def x_dsb(M, o):
+    """A8.8.44: the option selects the required shareability domain and access types; every other (reserved) option is a full-system barrier for all
+    accesses; HCR.BSU upgrades the domain for a Non-secure PL1/PL0 caller. The hooked target records what the core asked the memory system for."""
     hook(M, 'DataSynchronizationBarrier')
+    domain, types = DSB_OPTION.get(o['option'], ('FULL_SYSTEM', 'ALL'))
+    if M.virt_ext() and not M.is_secure() and not M.is_hyp():
+        bsu = (M.s['hcr'] >> 10) & 3
+        if bsu == 3:
+            domain = 'FULL_SYSTEM'
+        if bsu == 2 and domain != 'FULL_SYSTEM':
+            domain = 'OUTER_SHAREABLE'
+        if bsu == 1 and domain == 'NONSHAREABLE':
+            domain = 'INNER_SHAREABLE'
+    if 'barriers' in M.s:
+        M.s['barriers'] = tuple(M.s['barriers']) + ((domain, types),)
 
 
 def x_isb(M, o):
